@@ -273,6 +273,11 @@ def monitor(lm, cfg, t, c):
                         break
             else:
                 got = None                       # not claimed (see DESIGN.md, C09)
+            # whichever rank lands where: the core sets the command pins are the core sets of the placement
+            if c['bind'] and sorted(sorted(bind_cores(b)) for b in c['bind']) != sorted(sorted(s['cores']) for s in t['slots']):
+                bad.append(('mpiexec-pals:cpu-bind-names-other-cores',
+                            '--cpu-bind pins the core sets %s, the ranks hold %s'
+                            % ([bind_cores(b) for b in c['bind']], [s['cores'] for s in t['slots']])))
         else:
             got = {}
             for h, kk in c['hf']: got[h] = got.get(h, 0) + kk
@@ -358,8 +363,10 @@ def gen_task(rng, lm, cfg, force_n=None):
             if not cands: break
             cur = rng.choice(cands)
             free = [c for c in range(cpn) if c not in used[cur]]
-        if rng.random() < 0.6: cores = free[:cpr]                       # first free cores
-        else:                  cores = sorted(rng.sample(free, cpr))    # holes: other tasks hold the cores between
+        r2 = rng.random()
+        if r2 < 0.55:   cores = free[:cpr]                       # first free cores
+        elif r2 < 0.85: cores = sorted(rng.sample(free, cpr))    # holes: other tasks hold the cores between
+        else:           cores = rng.sample(free, cpr)            # ... in any order (placements supplied by the application)
         used[cur].update(cores)
         slots.append({'host': cur, 'node': cur, 'cores': cores, 'gpus': [0] if rng.random() < 0.2 else []})
     if rng.random() < 0.7:
